@@ -128,8 +128,17 @@ class Evaluator(Folder):
                 raise Unfoldable("store to " + unparse(t))
         elif isinstance(t, ast.Subscript):
             base = self.fold(t.value)
-            if isinstance(base, (list, dict)):
-                base[self.fold(t.slice)] = v
+            if isinstance(base, (list, dict, bytearray)):
+                if isinstance(t.slice, ast.Slice):
+                    lo = self.fold(t.slice.lower) if t.slice.lower is not None else None
+                    hi = self.fold(t.slice.upper) if t.slice.upper is not None else None
+                    st_ = self.fold(t.slice.step) if t.slice.step is not None else None
+                    base[slice(lo, hi, st_)] = v
+                else:
+                    try:
+                        base[self.fold(t.slice)] = v
+                    except (IndexError, ValueError) as ex:
+                        raise Raised(type(ex).__name__, t)
             else:
                 raise Unfoldable("store to " + unparse(t))
         else:
@@ -332,6 +341,12 @@ class Evaluator(Folder):
                 recv = self.fold(e.func.value)
             except Unfoldable:
                 recv = NotImplemented
+            if isinstance(recv, bytearray) and m in ("append", "extend", "clear", "pop", "insert", "reverse"):
+                try:
+                    getattr(recv, m)(*[self.fold(a) for a in e.args])
+                except (ValueError, IndexError, TypeError) as ex:
+                    raise Raised(type(ex).__name__, e)
+                return
             if isinstance(recv, list) and m in ("append", "extend", "insert", "sort", "reverse", "clear", "pop", "remove"):
                 try:
                     getattr(recv, m)(*[self.fold(a) for a in e.args])
